@@ -613,6 +613,95 @@ def tok_correspondence(run, jobs, scratch):
     run.cov["tokenizer_correspondence"] = {"inputs": len(inputs), "identical_streams": nsame, "different": ndiff}
 
 
+# ------------------------------------------------- importer correspondence ----
+def strip_unmodelled(data):
+    """the same document without the top-level elements the import model does not decide"""
+    return re.sub(rb"<(distances2hetero|distances2|memattr|cpukind)\b[^>]*?(/>|>.*?</\1>)\s*", b"", data, flags=re.S)
+
+
+def import_correspondence(run, jobs, exe, scratch):
+    """Acceptance model XmlImport.import_doc vs the real importer: same documents (those the strict parser of
+    gen/xmlfuzz_gen.py can turn into an element tree), C side = nolibxml, every type kept, no callback;
+    C accepts iff the raw tree reaches the core (shape line of the phase hook); shapes compared when both accept."""
+    try:
+        drv = C.extract("C06", "drv_c06.ml", prelude=["hvnum.ml"])
+    except Exception as e:
+        run.cov["import_correspondence"] = "not run: %s" % str(e)[:300]
+        return
+    quick = run.tier == "quick"
+    seen, docs, irregular = set(), [], 0
+    for j in jobs:
+        if j.kind != "topo" or j.method == "path" or len(j.data) > 9000:
+            continue
+        stripped = strip_unmodelled(j.data)
+        for data in ((j.data,) if stripped == j.data else (stripped,)):
+            if data in seen:
+                continue
+            seen.add(data)
+            p = G.parse_strict(data)
+            if p is None:
+                irregular += 1
+                continue
+            docs.append((data, p, j.origin))
+    lim = 3000 if quick else 40000
+    docs = docs[:lim]
+    cjobs = [Job("topo", 0, "buf", 0, 4 | 256, data, origin) for data, p, origin in docs]
+    d2 = tempfile.mkdtemp(dir=scratch)
+    run_jobs(exe, cjobs, d2)
+    chunks = [list(range(k, len(docs), C.NCPU)) for k in range(C.NCPU)]
+
+    def one(idx):
+        path = os.path.join(d2, "imp-%d" % idx[0])
+        with open(path, "wb") as f:
+            for i in idx:
+                f.write(G.serialize_doc(cjobs[i].id, docs[i][1]))
+        rc, out, err = C.sh([drv], input=("m imp %s\n" % path).encode(), timeout=1200)
+        return out.decode("latin1"), err.decode("latin1")
+
+    model = {}
+    with cf.ThreadPoolExecutor(max_workers=C.NCPU) as ex:
+        for out, err in ex.map(one, [c for c in chunks if c]):
+            for m in re.finditer(r"IMP (\S+) (accept|reject|unmodelled) ?(\S*)", out):
+                model[m.group(1)] = (m.group(2), m.group(3))
+    stats = {"documents": len(docs), "lexically_irregular_skipped": irregular, "unmodelled": 0, "both_accept_same_shape": 0, "both_reject": 0,
+             "core_refuses_after_import": 0, "c_abnormal": 0, "disagreements": 0}
+    for j in cjobs:
+        mv = model.get(j.id)
+        if mv is None:
+            run.violation("correspondence:import:no-model-answer", "the import model gave no answer for a document (%s)" % j.origin, j.replay_text(), no_input=True)
+            continue
+        if mv[0] == "unmodelled":
+            stats["unmodelled"] += 1
+            run.bump("import-tie:unmodelled:" + j.origin.split(":")[0])
+            continue
+        if j.status != "exit:0":
+            stats["c_abnormal"] += 1          # judged by the main run (sanitizer / watchdog), not here
+            continue
+        sm = re.search(r"\nshape (\S+)", j.out)
+        loaded = "\nload rc=0" in j.out
+        if sm and not loaded:
+            stats["core_refuses_after_import"] += 1
+        c_accept = sm is not None
+        if c_accept and mv[0] == "accept":
+            if sm.group(1) == mv[1]:
+                stats["both_accept_same_shape"] += 1
+                run.bump("import-tie:accept:" + j.origin.split(":")[0])
+                run.cov["traces_validated_against_impl"] += 1
+                continue
+            what = "both accept but the object trees differ: C %s model %s" % (sm.group(1)[:200], mv[1][:200])
+        elif (not c_accept) and mv[0] == "reject":
+            stats["both_reject"] += 1
+            run.bump("import-tie:reject:" + j.origin.split(":")[0])
+            run.cov["traces_validated_against_impl"] += 1
+            continue
+        else:
+            what = "C %s, model %s" % ("accepts" if c_accept else "refuses", mv[0] + "s")
+        stats["disagreements"] += 1
+        run.violation("correspondence:import", "importer acceptance model XmlImport.import_doc and hwloc disagree on a document (%s): %s" % (j.origin, what),
+                      j.replay_text() + "--- C output\n" + "\n".join(l for l in j.out.split("\n") if not re.match(r"[TLDOE]( |$)", l))[-800:] + "\n--- model\n%s %s\n" % mv, no_input=True)
+    run.cov["import_correspondence"] = stats
+
+
 # ------------------------------------------------------------------ check ----
 def check(run, replay=None):
     import time
@@ -670,6 +759,10 @@ def check(run, replay=None):
         t0 = time.time()
         tok_correspondence(run, jobs, scratch)
         tm["tokenizer_correspondence"] = round(time.time() - t0, 1)
+        t0 = time.time()
+        if not replay:
+            import_correspondence(run, jobs, exe, scratch)
+        tm["import_correspondence"] = round(time.time() - t0, 1)
         run.cov["timing_s"] = tm
     finally:
         shutil.rmtree(scratch, ignore_errors=True)
